@@ -394,7 +394,15 @@ impl Scheduler for SimSched {
             n += 1;
         }
         let cur: Option<usize> = current_task.map(|t| t.into());
-        let pick = core.choose(&ids[..n], cur, is_yielding)?;
+        let pick = match core.choose(&ids[..n], cur, is_yielding) {
+            Some(p) => p,
+            None => {
+                // the execution stops here: no task runs again except to be unwound by the
+                // engine's cleanup, and those drop handlers must not call back into it
+                rt::with(|r| r.active.set(false));
+                return None;
+            }
+        };
         core.record.push(pick as u8);
         rt::with(|r| {
             if let Some(c) = cur {
